@@ -161,7 +161,7 @@ def failed_checks(r):
 def parse_playback_print(out):
     """blocks printed by --concrete-playback=print -> list of (check_kind, check_text, vals_text)"""
     blocks = []
-    for m in re.finditer(r"/// Test generated for harness `([^`]+)`.*?/// Check for `(\w+)`: ([^\n]*)\n\s*#\[test\]\s*fn (\w+)\(\) \{\s*let concrete_vals: Vec<Vec<u8>> = vec!\[(.*?)\n\s*\];", out, re.S):
+    for m in re.finditer(r"/// Test generated for harness `([^`]+)`.*?/// Check for `(\w+)`: (.*?)\n\s*#\[test\]\s*fn (\w+)\(\) \{\s*let concrete_vals: Vec<Vec<u8>> = vec!\[(.*?)\n\s*\];", out, re.S):
         blocks.append({"harness": m.group(1), "kind": m.group(2), "check": m.group(3).strip(), "vals": m.group(5)})
     return blocks
 
@@ -418,7 +418,7 @@ def run_property(plan, tier, seed, t_start):
     if violations:
         for v in violations:
             print("VIOLATION property=%s replay=%s" % (pid, v["replay"]))
-            print("  harness=%s: %s" % (v["harness"], v["what"]))
+            print("  harness=%s: %s" % (v["harness"], " ".join(str(v["what"]).split())[:160]))
         return 1
     if inconclusive:
         for i in inconclusive[:20]:
